@@ -1,3 +1,5 @@
+import PytezosModel.Generated.C01Bodies
+import PytezosModel.Proofs.InterpTables
 import PytezosModel.Proofs.InterpRefine
 import PytezosModel.Proofs.InterpGuard
 import PytezosModel.Proofs.InterpProgress
@@ -24,9 +26,76 @@ or FAILWITH value, of the reference semantics.
   assertion: a recorded open finding, exhibited on the mirror by `map_empty_counterexample`.
 * It rests on `progress` (a well-typed program on well-typed values is never stuck: the progress half of type
   soundness; the preservation half is C02) and on `exec_refines_spec` (refinement for every execution that is not stuck
-  and inside the guard, any protected prefix). -/
+  and inside the guard, any protected prefix).
+* **Tie to the source.**  `Impl` does not contain the `dispatch_types` tables, the shift / mutez / `count` bounds or the
+  stack indices: it reads them from `Generated.C01`, which translator/c01.py regenerates from
+  src/pytezos/michelson/instructions/*.py and stack.py on every run.  The theorems `*_tables_eq_reference`,
+  `numeric_guards_eq_reference` and `stack_indices` below are the obligations that what was read agrees with the
+  reference; `exec_refines_spec` is proved from them (Proofs/InterpTables.lean → InterpStack / InterpArith / InterpStep).
+  `source_bodies_recognised` is the obligation that the body of every modelled `execute` (and of the helpers / stack /
+  comb methods they call) is still the text the mirror was transcribed from. -/
 namespace C01
 open Interp
+
+/-- **well-typed value** (Michelson typing): a well-formed value of its runtime type — deep, by `Typing.checkVal false`: the
+elements of collections, the bodies of lambdas — in which every set and every map with simple comparable keys is
+strictly sorted (`Typing.litOk`) -/
+def WellFormed (v : Val) : Prop := Typing.checkVal false v (typeOf v) = true ∧ Typing.litOk v = true
+
+/-- **strictly well-typed value**: the same with `Typing.checkVal true` — every lambda inside `v` has a *strictly* typed
+body (its MAP bodies keep the element type) -/
+def StrictWF (v : Val) : Prop := Typing.checkVal true v (typeOf v) = true ∧ Typing.litOk v = true
+
+/-- **shape digests**: for each of the 86 instruction forms, the helpers (`execute_dip`, `execute_shift`, `dispatch_types`
+…) and the `MichelsonStack` / `PairType` / `from_value` methods they call, the normalised statement list in the source
+is the one the mirror `Impl` was written from (translator/c01.py, `SHAPES`) -/
+theorem source_bodies_recognised : Generated.C01.bodyRecognised.all (·.2) = true := by decide
+
+/-- the digest list covers all 86 instruction forms -/
+theorem source_bodies_cover_all_forms : Generated.C01.modelledForms = 86 ∧ 86 ≤ Generated.C01.bodyRecognised.length := by
+  decide
+
+/-- the `dispatch_types` tables read from arithmetic.py are the reference tables -/
+theorem arithmetic_tables_eq_reference :
+    Impl.addTy = Spec.addTy ∧ Impl.subTy = Spec.subTy ∧ Impl.mulTy = Spec.mulTy ∧ Impl.edivTy = Spec.edivTy ∧
+    (∀ a, Impl.negTy a = ruleTy1 .NEG [a]) :=
+  ⟨addTy_eq, subTy_eq, mulTy_eq, edivTy_eq, negTy_eq⟩
+
+/-- the tables of boolean.py: result classes of the typing rules, `bool` / `int` / `~int(x)` / `not bool(x)` converters -/
+theorem boolean_tables_eq_reference :
+    (∀ a b, Impl.convRow Generated.C01.andTable [a, b]
+        = (Typing.andTy a b).map fun t => (t, if t = Ty.bool then Generated.C01.Conv.bool else .int)) ∧
+    (∀ a b, Impl.convRow Generated.C01.boolAddTable [a, b]
+        = (Typing.orTy a b).map fun t => (t, if t = Ty.bool then Generated.C01.Conv.bool else .int)) ∧
+    (∀ a, Impl.convRow Generated.C01.notTable [a]
+        = (ruleTy1 .NOT [a]).map fun t => (t, if t = Ty.bool then Generated.C01.Conv.not else .invert)) :=
+  ⟨andRow_eq, orRow_eq, notRow_eq⟩
+
+/-- the tables / operand classes of generic.py (CONCAT, SIZE, SLICE) -/
+theorem generic_tables_eq_reference :
+    (∀ t, Impl.convRow Generated.C01.concatListTable [t]
+        = (ruleTy1 .CONCAT [.list t]).map fun r => (r, if r = Ty.string then Generated.C01.Conv.str else .bytes)) ∧
+    (∀ a b, Impl.convRow Generated.C01.concatPairTable [a, b]
+        = (match a with | .list _ => none | _ => ruleTy1 .CONCAT [a, b]).map
+            fun r => (r, if r = Ty.string then Generated.C01.Conv.str else .bytes)) ∧
+    (∀ t, Impl.classIn Generated.C01.sizeClasses t = (Typing.step .SIZE [t]).isSome) ∧
+    (∀ t, Impl.classIn Generated.C01.sliceOffsetClass t = decide (t = .nat)) ∧
+    (∀ t, Impl.classIn Generated.C01.sliceLengthClass t = decide (t = .nat)) ∧
+    (∀ t, Impl.classIn Generated.C01.sliceClasses t = (Typing.step .SLICE [.nat, .nat, t]).isSome) :=
+  ⟨concatListRow_eq, concatPairRow_eq, sizeClasses_eq, sliceOffsetClass_eq, sliceLengthClass_eq, sliceClasses_eq⟩
+
+/-- the numbers read from the source: shifts by at most 256 bits, `nat` / `mutez` ranges (`value >= 0`, at most 63 bits),
+`PAIR n` / `UNPAIR n` need `n ≥ 2`, `unpairn_comb(count - 2)` -/
+theorem numeric_guards_eq_reference :
+    Generated.C01.shiftLimit = some 257 ∧ Impl.numFromValue = Spec.numOk ∧ Generated.C01.pairnMin = some 2 ∧
+    Generated.C01.unpairnMin = some 2 ∧ Generated.C01.unpairnCombOffset = some 2 :=
+  ⟨shiftLimit_eq, numFromValue_eq, pairnMin_eq, unpairnMin_eq, unpairnCombOffset_eq⟩
+
+/-- `MichelsonStack.push / pop / peek` work at index `self.protected` -/
+theorem stack_indices :
+    Generated.C01.pushIndex = some .atProtected ∧ Generated.C01.popIndex = some .atProtected ∧
+    Generated.C01.peekIndex = some .atProtected :=
+  ⟨pushIndex_eq, popIndex_eq, peekIndex_eq⟩
 
 /-- **refinement, any protected prefix** (the form used inside DIP / DIG / DUG / DUP n):
 for every program, fuel bound, environment, visible stack `st` and protected prefix `pre`, if the reference
@@ -75,6 +144,11 @@ theorem run_eq_reference (env : Env) (fuel : Nat) (i : Instr) (st : List Val)
   rw [guarded_is_reference env fuel i st hg]
   exact run_eq_guarded env fuel i st h hg
 
+section
+/- the generic development (Proofs/InterpTyping … InterpProgress, class `Interp.Mode`) at the Michelson typing rules and the
+plain reference semantics -/
+local instance : Mode := Mode.lax
+
 /-- **progress** (the half of type soundness C02 does not prove): a well-typed program — accepted by the typing rules,
 all its set / map literals well-formed — run on well-typed values is never stuck: for every environment and fuel bound
 the reference semantics yields a stack, a FAILWITH value, a runtime failure, or runs out of fuel. -/
@@ -91,7 +165,7 @@ theorem welltyped_outcomes (env : Env) (fuel : Nat) (i : Instr) (st : List Val) 
     (∃ v, Spec.eval false env fuel i st = .failed v) ∨
     Spec.eval false env fuel i st = .rtfail ∨ Spec.eval false env fuel i st = .oof := by
   have h1 := Interp.progress env fuel i st tr hty hwf hlit
-  have h2 := Interp.eval_false_ne_offguard env fuel i st tr hty hwf hlit
+  have h2 := Interp.eval_ne_offguard env fuel i st tr hty hwf hlit
   cases hq : Spec.eval false env fuel i st with
   | ok st' =>
     refine Or.inl ⟨st', rfl, Interp.wellFormed_preserved env fuel i st st' tr hty hwf hlit hq, ?_⟩
@@ -111,7 +185,7 @@ theorem welltyped_run_eq_reference (env : Env) (fuel : Nat) (i : Instr) (st : Li
     (hlit : Typing.literalsOk i = true)
     (hguard : Spec.eval true env fuel i st ≠ .offguard) :
     Impl.run env fuel i st = Spec.eval false env fuel i st := by
-  have hp := Interp.progress env fuel i st tr hty hwf hlit
+  have hp : Spec.eval false env fuel i st ≠ .stuck := Interp.progress env fuel i st tr hty hwf hlit
   rw [guarded_is_reference env fuel i st hguard] at hp
   exact run_eq_reference env fuel i st hp hguard
 
@@ -141,6 +215,76 @@ theorem welltyped_program_run (env : Env) (fuel : Nat) (i : Instr) (tr : TRes)
     Impl.run env fuel i [] = Spec.eval false env fuel i [] ∧ Spec.eval false env fuel i [] ≠ .stuck :=
   ⟨welltyped_run_eq_reference env fuel i [] tr hty (by simp) hlit hguard,
    progress env fuel i [] tr hty (by simp) hlit⟩
+end
+
+/-! ### Strictly typed programs: the guard is a static property
+
+`Typing.typeInstr true` is `Typing.typeInstr false` with one more requirement: the body of every MAP — in the program, in
+the PUSHed lambda literals, in LAMBDA bodies — leaves an element of the type it was given.  For such programs, run on
+strictly well-typed values (`StrictWF`: the lambdas on the input stack have strictly typed bodies too), the guard of
+`welltyped_run_eq_reference` never fires, so C01's statement holds with static hypotheses only.  The invariant "every
+lambda on the stack has a strictly typed body" is carried through all 86 instruction forms by the same preservation /
+progress development as the non-strict one, instantiated at the mode `Mode.strictGuarded`. -/
+
+/-- strict typing refines typing: same result -/
+theorem strict_typing_is_typing (i : Instr) (s : List Ty) (tr : TRes)
+    (h : Typing.typeInstr true i s = some tr) : Typing.typeInstr false i s = some tr :=
+  Interp.strict_imp_lax.1 i s tr h
+
+/-- a strictly well-typed value is a well-typed value -/
+theorem strictWF_wellFormed (v : Val) (h : StrictWF v) : WellFormed v :=
+  ⟨Interp.strict_imp_lax.2.1 v (typeOf v) h.1, h.2⟩
+
+section
+local instance : Mode := Mode.strictGuarded
+
+/-- **the guard never fires on a strictly typed program**: for every environment and fuel bound, the *guarded* reference
+semantics of a strictly typed program (well-formed literals) on strictly well-typed values does not answer `offguard` — MAP is
+never applied to an empty collection with a type-changing body, because there is no type-changing body. -/
+theorem strict_guard_never_fires (env : Env) (fuel : Nat) (i : Instr) (st : List Val) (tr : TRes)
+    (hty : Typing.typeInstr true i (st.map typeOf) = some tr) (hwf : ∀ v ∈ st, StrictWF v)
+    (hlit : Typing.literalsOk i = true) : Spec.eval true env fuel i st ≠ .offguard :=
+  Interp.eval_ne_offguard env fuel i st tr hty hwf hlit
+
+/-- the invariant behind it, preserved through every instruction form: a strictly typed program leaves strictly well-typed
+values of the static types (in particular every lambda it leaves has a strictly typed body) -/
+theorem strict_invariant_preserved (env : Env) (fuel : Nat) (i : Instr) (st st' : List Val) (tr : TRes)
+    (hty : Typing.typeInstr true i (st.map typeOf) = some tr) (hwf : ∀ v ∈ st, StrictWF v)
+    (hlit : Typing.literalsOk i = true) (hev : Spec.eval true env fuel i st = .ok st') :
+    (∀ v ∈ st', StrictWF v) ∧ tr = .ok (st'.map typeOf) :=
+  ⟨Interp.wellFormed_preserved env fuel i st st' tr hty hwf hlit hev,
+   ((sound_all env fuel).1 i st st' tr (fun v hv => (hwf v hv).1) (Interp.eval_ok_plain hev) hty).2⟩
+end
+
+/-- **C01 for strictly typed programs — static hypotheses only.**  For every program accepted by the strict typing rules
+(`Typing.typeInstr true`; set / map literals well-formed), every environment, every fuel bound and every input stack of
+strictly well-typed values, the pytezos machine returns exactly the outcome of the (unguarded) reference semantics: the
+same stack, the same FAILWITH value, the same runtime failure, out of fuel exactly when the reference is. -/
+theorem strict_run_eq_reference (env : Env) (fuel : Nat) (i : Instr) (st : List Val) (tr : TRes)
+    (hty : Typing.typeInstr true i (st.map typeOf) = some tr) (hwf : ∀ v ∈ st, StrictWF v)
+    (hlit : Typing.literalsOk i = true) :
+    Impl.run env fuel i st = Spec.eval false env fuel i st :=
+  welltyped_run_eq_reference env fuel i st tr (strict_typing_is_typing i _ tr hty)
+    (fun v hv => strictWF_wellFormed v (hwf v hv)) hlit (strict_guard_never_fires env fuel i st tr hty hwf hlit)
+
+/-- spelled out for a terminating run: exactly the stack / FAILWITH value / runtime failure of the reference, nothing else;
+a final stack consists of well-typed values of the static types -/
+theorem strict_terminating_run (env : Env) (fuel : Nat) (i : Instr) (st : List Val) (tr : TRes)
+    (hty : Typing.typeInstr true i (st.map typeOf) = some tr) (hwf : ∀ v ∈ st, StrictWF v)
+    (hlit : Typing.literalsOk i = true) (hterm : Spec.eval false env fuel i st ≠ .oof) :
+    (∃ st', Spec.eval false env fuel i st = .ok st' ∧ Impl.run env fuel i st = .ok st' ∧
+        (∀ v ∈ st', WellFormed v) ∧ tr = .ok (st'.map typeOf)) ∨
+    (∃ v, Spec.eval false env fuel i st = .failed v ∧ Impl.run env fuel i st = .failed v) ∨
+    (Spec.eval false env fuel i st = .rtfail ∧ Impl.run env fuel i st = .rtfail) :=
+  welltyped_terminating_run env fuel i st tr (strict_typing_is_typing i _ tr hty)
+    (fun v hv => strictWF_wellFormed v (hwf v hv)) hlit hterm (strict_guard_never_fires env fuel i st tr hty hwf hlit)
+
+/-- a contract / REPL run starts on the empty stack: the hypotheses are a check of the program text -/
+theorem strict_program_run (env : Env) (fuel : Nat) (i : Instr) (tr : TRes)
+    (hty : Typing.typeInstr true i [] = some tr) (hlit : Typing.literalsOk i = true) :
+    Impl.run env fuel i [] = Spec.eval false env fuel i [] ∧ Spec.eval false env fuel i [] ≠ .stuck :=
+  welltyped_program_run env fuel i tr (strict_typing_is_typing i _ tr hty) hlit
+    (strict_guard_never_fires env fuel i [] tr hty (by simp) hlit)
 
 /-- the stack discipline alone: DIP n / DIG n / DUG n / DUP n through `protect`/`restore` are `take`/`drop`
 on the visible stack, for every depth, stack and prefix -/
@@ -244,12 +388,37 @@ def progW : Instr :=
         .LOOP (.seq [.PUSH .bool (.bool false)]), .LAMBDA .bool .bool (.seq [.NOT]), .SWAP, .EXEC]
 example : Typing.typeInstr false progW ([Val.num .int 3].map typeOf) = some (.ok [.bool]) := by rfl
 example : Typing.literalsOk progW = true := by rfl
-example : ∀ v ∈ [Val.num .int 3], WellFormed v := by simp [WellFormed, Typing.litOk]
+example : ∀ v ∈ [Val.num .int 3], WellFormed v := by simp [WellFormed, Typing.checkVal, typeOf, Typing.litOk]
 example : Spec.eval true env0 30 progW [.num .int 3] = .ok [.bool false] := by rfl
 example : Impl.run env0 30 progW [.num .int 3] = .ok [.bool false] := by
-  rw [welltyped_run_eq_reference env0 30 progW [.num .int 3] (.ok [.bool]) (by rfl) (by simp [WellFormed, Typing.litOk]) (by rfl)
+  rw [welltyped_run_eq_reference env0 30 progW [.num .int 3] (.ok [.bool]) (by rfl) (by simp [WellFormed, Typing.checkVal, typeOf, Typing.litOk]) (by rfl)
     (by rw [show Spec.eval true env0 30 progW [.num .int 3] = .ok [.bool false] from rfl]; intro h; cases h)]
   rfl
+-- non-vacuity of the strict statements: MAP over an *empty* list and over a non-empty one with a type-keeping body, a lambda
+-- (pushed by LAMBDA, and one given on the input stack) whose body contains a MAP and is called by EXEC: strictly typed,
+-- strictly well-typed input, and the machine's run is the reference's — no guard hypothesis anywhere
+def progS : Instr :=
+  .seq [.NIL .int, .MAP (.seq [.PUSH .int (.num .int 1), .ADD]), .PUSH .int (.num .int 5), .CONS,
+        .LAMBDA (.list .int) (.list .int) (.MAP (.seq [.DUP, .MUL])), .SWAP, .EXEC, .EXEC]
+def lamS : Val := .lam (.list .int) (.list .int) (.seq [.MAP (.seq [.PUSH .int (.num .int 2), .SWAP, .SUB]), .NIL .int, .SWAP, .DROP])
+example : Typing.typeInstr true progS ([lamS].map typeOf) = some (.ok [.list .int]) := by rfl
+example : Typing.literalsOk progS = true := by rfl
+example : ∀ v ∈ [lamS], StrictWF v := by intro v hv; simp at hv; subst hv; exact ⟨by rfl, by rfl⟩
+example : Spec.eval false env0 30 progS [lamS] = .ok [.list .int []] := by rfl
+example : Impl.run env0 30 progS [lamS] = .ok [.list .int []] := by
+  rw [strict_run_eq_reference env0 30 progS [lamS] (.ok [.list .int]) (by rfl)
+    (by intro v hv; simp at hv; subst hv; exact ⟨by rfl, by rfl⟩) (by rfl)]
+  rfl
+example : Spec.eval true env0 30 progS [lamS] ≠ .offguard :=
+  strict_guard_never_fires env0 30 progS [lamS] (.ok [.list .int]) (by rfl)
+    (by intro v hv; simp at hv; subst hv; exact ⟨by rfl, by rfl⟩) (by rfl)
+-- the program of the open finding is well-typed but NOT strictly typed (its MAP body turns timestamps into ints), and a
+-- lambda with such a body is not a strictly well-typed value: the static hypotheses exclude exactly the guard's case
+example : Typing.typeInstr false (.seq [.NIL .timestamp, .MAP (.seq [.DROP, .PUSH .int (.num .int 0)])]) [] = some (.ok [.list .int]) := by rfl
+example : Typing.typeInstr true (.seq [.NIL .timestamp, .MAP (.seq [.DROP, .PUSH .int (.num .int 0)])]) [] = none := by rfl
+example : ¬ StrictWF (.lam (.list .timestamp) (.list .int) (.MAP (.seq [.DROP, .PUSH .int (.num .int 0)]))) := by
+  intro h; exact absurd h.1 (by decide)
+example : WellFormed (.lam (.list .timestamp) (.list .int) (.MAP (.seq [.DROP, .PUSH .int (.num .int 0)]))) := ⟨by rfl, by rfl⟩
 -- a runtime failure is an outcome of a well-typed program, not a stuck state — and the machine has it too
 example : Typing.typeInstr false (.seq [.PUSH .mutez (.num .mutez (2 ^ 62)), .DUP, .ADD]) [] = some (.ok [.mutez]) := by rfl
 example : Spec.eval false env0 9 (.seq [.PUSH .mutez (.num .mutez (2 ^ 62)), .DUP, .ADD]) [] = .rtfail := by rfl
